@@ -28,7 +28,7 @@ class FE(AbstractFiniteElement):
         self._sobolev = sobolev
         self._subs = list(sub_elements)
         self._repr = tag or (
-            f"FE({family!r}, {cell!r}, {degree}, {self._rshape}, {pullback!r}, {sobolev!r}, {self._subs!r})"
+            f"FE({family!r}, {cell!r}, {degree}, {self._rshape}, {pullback!r}, {sobolev!s}, {self._subs!r})"
         )
 
     def __repr__(self):
